@@ -378,6 +378,11 @@ func init() {
 				// fail-fast also holds while a graceful shutdown is waiting for the job
 				return simpleCase(c, drv.RunShutdownDirectedCase(c.Seed, 0), 50)
 			}
+			if c.Idx%40 == 14 {
+				// the first failure ends a fail-fast job also when nothing else runs at that instant and independent tasks
+				// have not been launched yet (loop parked in that gap through H1)
+				return simpleCase(c, drv.RunFailFastInGapCase(int64(c.Idx/40)), 10)
+			}
 			if c.Idx%40 == 29 {
 				// real task runner: a program that cannot be started fails its task like a non-zero exit status does
 				return simpleCase(c, drv.RunExecErrorCase(int64(c.Idx/40), c.TmpDir), 10)
